@@ -12,9 +12,11 @@ the file.  `resize_bytes(old_size -> new size at offset 0)`, `seek(0)`, `write(d
 position 0 when `save` is entered (a file opened by name; callers that pass a file object have to
 rewind it: `parse_size` reads the 30 header bytes at the current position).
 
-Objects nest in the Header Object and in the Header Extension Object only; a Header Extension
-Object inside a Header Extension Object is outside the model (`.notImplemented`).  A Header Object
-inside the header or the Header Extension is an ASFHeaderError ("nested header object").
+Objects nest in the Header Object and in the Header Extension Object only: a Header Extension
+Object inside a Header Extension Object is an ASFHeaderError ("nested header extension"), a Header
+Object inside the header or the Header Extension an ASFHeaderError ("nested header object").
+A struct.error raised while rendering (a count or length that does not fit its field) leaves
+`ASF.save` as ASFError.
 
 Spec side (ASF specification §2–§4: an object is a 16-byte GUID, a 64-bit little-endian size that
 includes the 24 header bytes, and the payload; the Header Object carries the number of its child
@@ -412,7 +414,7 @@ def extLoop (data : Bytes) (datasize : Nat) : Nat → Nat → Except PyErr (List
         let guid := h.take 16
         let size := ofLE (h.drop 16)
         if size < 1 then .error .mutagen
-        else if guid = gExt then .error .notImplemented     -- nested Header Extension: outside the model
+        else if guid = gExt then .error .mutagen            -- ASFHeaderError("nested header extension")
         else
           -- data[22 + datapos + 24 : 22 + datapos + size]
           match leafOf guid ((data.drop (46 + datapos)).take (size - 24)) with
@@ -582,6 +584,10 @@ def renderFull (d : Dist) (objs : List Obj) (fileLen available : Nat) (pad : Pad
           if total < 2 ^ 64 then .ok (writeAt header (30 + pre.length + 24 + 16) (toLE 8 total)) else .error .struct_
       else .ok header
 
+/-- what `ASF.save` makes of an exception raised while rendering: struct.error (a count or length
+that does not fit its field) becomes ASFError; everything else passes -/
+def structToMutagen (e : PyErr) : PyErr := if e = .struct_ then .mutagen else e
+
 /-- `ASF.save` through an object whose `_header.objects` is `objs`: the new file and the tree the
 object holds afterwards -/
 def saveTree (objs : List Obj) (f : Bytes) (tags : List Tag) (pad : PadChoice) : Except PyErr (Bytes × List Obj) :=
@@ -592,8 +598,9 @@ def saveTree (objs : List Obj) (f : Bytes) (tags : List Tag) (pad : PadChoice) :
     match parseSize f with
     | .error e => .error e
     | .ok (oldSize, _) =>
+      -- `try: … render_full(…) except struct.error as e: raise ASFError(e)`
       match renderFull d objs' f.length oldSize pad with
-      | .error e => .error e
+      | .error e => .error (structToMutagen e)
       | .ok data => .ok (data ++ f.drop oldSize, objs')
 
 /-- `ASF(file)` then `save(padding=…)` with `tags` as the tag list -/
